@@ -241,6 +241,12 @@ C01_Round == pc \in {"Poll", "Send", "RoundEnd"} => Sum(actual) + Sum(tactic) <=
 CountIn(s, p) == Len(SelectSeq(s, LAMBDA x : x = p))
 CountOut(p) == Len(SelectSeq(outq, LAMBDA x : x[1] = p))
 C01_Conservation == \A p \in Prios : actual[p] = CountOut(p) + held[p] + CountIn(fbq, p) + CountIn(pendq, p)
+\* the detailed state maps into the inductive invariant of the counter abstraction CapInd.tla (proved for every H by Apalache)
+\* under out[p] = CountOut(p) + held[p], fb[p] = CountIn(fbq, p) + CountIn(pendq, p)
+C01_AbsInd == /\ C01_Conservation /\ Sum(actual) <= H
+              /\ (pc \in {"Poll", "Send"} => Sum(actual) + Sum(tactic) <= H)
+              /\ (pc = "Send" <=> carry # <<>>)
+              /\ (carry # <<>> => tactic[carry[1]] > 0)
 TypeOK == /\ \A p \in Prios : actual[p] >= 0 /\ tactic[p] >= 0 /\ held[p] >= 0
           /\ Len(outq) <= OutCap /\ Len(fbq) <= FbCap /\ (pendq # <<>> => Len(fbq) = FbCap)
 
